@@ -1,5 +1,10 @@
 """C06 — rule antecedents mean what the rule grammar says.
 
+Rule weights are written in the rule text (`with w`, incl. 0, 0.0, 0.000, -0.0, values next to 1, huge and tiny ones, no `with`)
+and `rule.weight` is compared exactly with the number written.  Every grammar rule is also evaluated THROUGH a rule block
+(RuleBlock.activate with each of the 7 activation methods, benign parameters): rule.activation_degree must be
+weight x documented antecedent value computed with the BLOCK's conjunction and disjunction.
+
 Correspondence: random engines (1-3 variables: inputs and outputs with a pre-filled fuzzy output, + the consequent's output),
 random antecedent trees to depth 4 (0-3 hedges, `any`, term names that collide with formula functions), written with
 minimal / redundant / glued parentheses, x all 7x9 registered conjunction/disjunction pairs + the non-commutative lambda
@@ -351,10 +356,31 @@ def close(a, b):
 
 
 # --------------------------------------------------------------------------- one case on the implementation
-def run_impl(engine, atext, conj, disj, weight):
-    """-> ("ok", postfix string, ("ok", degree) | ("err", kind)) | ("err", kind)"""
+WEIGHT_TEXTS = ["1.0", "1", None, "0.0", "0", "0.000", "-0.0", "0.5", "0.25", "2.0", "0.9999999999999999", "1.0000000000000002",
+                "0.999", "1.001", "1e300", "1.7e308", "1e-300", "5e-324", "123456.789", "1e-9"]
+
+
+def gen_weight_text(rng):
+    k = rng.random()
+    if k < 0.3:
+        return rng.choice(["1.0", "1", None])
+    if k < 0.5:
+        return rng.choice(["0.0", "0", "0.000", "-0.0"])
+    if k < 0.75:
+        return repr(rng.random())
+    return rng.choice(WEIGHT_TEXTS)
+
+
+def rule_text(atext, wtext):
+    return f"if {atext} then z is t" + ("" if wtext is None else f" with {wtext}")
+
+
+def run_impl(engine, atext, conj, disj, wtext):
+    """-> ("ok", postfix string, ("ok", degree) | ("err", kind)) | ("err", kind); the Rule object is left in run_impl.rule"""
     import fuzzylite as fl
 
+    run_impl.rule = None
+    run_impl.weight_read = None
     ant = fl.Antecedent(atext)
     try:
         ant.load(engine)
@@ -362,11 +388,13 @@ def run_impl(engine, atext, conj, disj, weight):
         return ("err", ERR.get(type(ex), "EInternal:" + type(ex).__name__))
     pf = ant.postfix()
     try:
-        rule = fl.Rule.create(f"if {atext} then z is t with {weight!r}", engine)
+        rule = fl.Rule.create(rule_text(atext, wtext), engine)
     except Exception as ex:  # noqa: BLE001
         return ("rule-create-failed", f"{type(ex).__name__}: {ex}")
-    if rule.antecedent.postfix() != pf or rule.weight != weight:
-        return ("rule-create-failed", f"Rule.create read the antecedent/weight differently: {rule.antecedent.postfix()!r} vs {pf!r}, {rule.weight} vs {weight}")
+    if rule.antecedent.postfix() != pf:
+        return ("rule-create-failed", f"Rule.create read the antecedent differently: {rule.antecedent.postfix()!r} vs {pf!r}")
+    run_impl.rule = rule
+    run_impl.weight_read = rule.weight
     try:
         with np.errstate(all="ignore"):
             d = float(rule.activate_with(conj, disj))
@@ -375,6 +403,56 @@ def run_impl(engine, atext, conj, disj, weight):
     if not vlib.same_float(d, float(rule.activation_degree)):
         return ("rule-create-failed", "activate_with did not store its result in activation_degree")
     return ("ok", pf, ("ok", d))
+
+
+ACTIVATIONS = ["General", "First", "Last", "Highest", "Lowest", "Proportional", "Threshold"]
+
+
+def mk_activation(name, n):
+    import fuzzylite as fl
+
+    if name in ("First", "Last"):
+        return getattr(fl, name)(rules=n, threshold=0.0)
+    if name in ("Highest", "Lowest"):
+        return getattr(fl, name)(rules=n)
+    if name == "Threshold":
+        return fl.Threshold(">=", 0.0)
+    return getattr(fl, name)()
+
+
+def block_check(engine, members, tn, sn, act_name, hedges):
+    """Evaluate the rules THROUGH a rule block (conjunction/disjunction taken from the block by the activation method) and
+    compare every rule.activation_degree with weight x documented antecedent value (Proportional: normalised by the sum of
+    the positive ones).  members: [(rule, tree, weight, rule text)].  -> list of (what, detail dict)"""
+    import fuzzylite as fl
+
+    conj, disj = mk_norm(tn, True), mk_norm(sn, False)
+    rules = [m[0] for m in members]
+    rb = fl.RuleBlock(name="rb", rules=rules, conjunction=conj, disjunction=disj, implication=fl.Minimum(), activation=mk_activation(act_name, len(rules)))
+    z = engine.output_variable("z")
+    out = []
+    try:
+        with np.errstate(all="ignore"):
+            rb.activate()
+            got = [float(r.activation_degree) for r in rules]
+    except Exception as ex:  # noqa: BLE001
+        z.fuzzy.clear()
+        return [(f"rule block with activation {act_name} raised {type(ex).__name__}: {ex}", {})]
+    z.fuzzy.clear()
+    with np.errstate(all="ignore"):
+        want = [m[2] * float(spec_value(m[1], engine, conj, disj, hedges)) for m in members]
+        if act_name == "Proportional":
+            total = 0.0
+            for w in want:
+                if w > 0.0:
+                    total += w
+            want = [(w / total if w > 0.0 else w) for w in want]
+    for m, g, w in zip(members, got, want):
+        if not close(g, w):
+            out.append((f"rule {m[3]!r} activated through a rule block (conjunction {tn}, disjunction {sn}, activation {act_name}"
+                        f"{', degrees normalised' if act_name == 'Proportional' else ''}) has activation degree {g}, the grammar semantics gives {w}",
+                        {"rule": m[3], "got": g, "want": w}))
+    return out
 
 
 def expected_lit(res):
@@ -495,19 +573,22 @@ def run(ctx, build, verdict, ev):
     n_worlds = ctx.n(150, 3000)
     lits, index, samples = [], [], []
     dist = {"depth": {}, "style": {}, "ops": {"registered": 0, "sharp": 0, "missing": 0}, "kind": {"grammar": 0, "malformed": 0, "odd-names": 0},
-            "outcome": {}, "leaves>=4": 0, "with_output_variable": 0, "with_any": 0, "with_hedges": 0, "with_function_named_term": 0, "disabled_variable": 0}
+            "outcome": {}, "weights": {"zero": 0, "one": 0, "other": 0}, "block_checks": {}, "leaves>=4": 0, "with_output_variable": 0, "with_any": 0, "with_hedges": 0, "with_function_named_term": 0, "disabled_variable": 0}
     nontrivial = set()
     oracle_violations = 0
     clone_diff = 0
     oracle_entries = 0
     per_world = max(1, n_rules // n_worlds)
     pair_i = 0
+    block_i = 0
+    block_rules = 0
     case_no = 0
     while case_no < n_rules:
         odd = rng.random() < 0.06
         world = gen_world(rng, odd)
         engine = build_engine(world)
         elit = coq_engine(engine, world)
+        world_rules = []
         for _ in range(per_world):
             if case_no >= n_rules:
                 break
@@ -528,14 +609,23 @@ def run(ctx, build, verdict, ev):
                 tn = None
             elif r < 0.04:
                 sn = None
-            weight = rng.choice([1.0, 1.0, 0.5, 0.25, rng.random(), rng.random(), 0.0, 2.0])
+            wtext = gen_weight_text(rng)
+            weight = 1.0 if wtext is None else float(wtext)
             conj, disj = mk_norm(tn, True), mk_norm(sn, False)
-            res = run_impl(engine, atext, conj, disj, weight)
-            replay = {"world": world, "antecedent": atext, "conjunction": tn, "disjunction": sn, "weight": weight, "tree": tree if kind == "grammar" else None}
+            res = run_impl(engine, atext, conj, disj, wtext)
+            replay = {"world": world, "antecedent": atext, "conjunction": tn, "disjunction": sn, "weight": weight, "weight_text": wtext,
+                      "tree": tree if kind == "grammar" else None}
             if res[0] == "rule-create-failed":
                 if kind == "grammar":
-                    verdict.add_broken("harness", "C06:rule-create", res[1])
+                    verdict.add_violation("rule:create", f"rule {rule_text(atext, wtext)!r} of the grammar could not be created: {res[1]}", replay)
+                    oracle_violations += 1
                 continue
+            if run_impl.rule is not None:
+                wr = run_impl.weight_read
+                dist["weights"]["zero" if weight == 0.0 else ("one" if weight == 1.0 else "other")] += 1
+                if not (isinstance(wr, float) and (wr == weight or (wr != wr and weight != weight))):
+                    verdict.add_violation("rule:weight", f"rule {rule_text(atext, wtext)!r} has weight {wr!r}; the text says {weight!r}", replay)
+                    oracle_violations += 1
             # ---- oracle table (libm pow of the hedge `extremely`) + the direct oracle
             tbl = []
             if kind == "grammar":
@@ -557,9 +647,21 @@ def run(ctx, build, verdict, ev):
                             clone_diff += 1
                         if res[2][0] != "ok" or not close(res[2][1], want):
                             got = res[2][1]
-                            verdict.add_violation("antecedent:degree", f"rule 'if {atext} then ...' (conjunction {tn}, disjunction {sn}, weight {weight}) "
+                            verdict.add_violation("antecedent:degree", f"rule {rule_text(atext, wtext)!r} (conjunction {tn}, disjunction {sn}) "
                                                   f"activates with {got}, the grammar semantics gives {want}", {**replay, "got": str(got), "want": want})
                             oracle_violations += 1
+                    if tn is not None and sn is not None and run_impl.rule is not None:
+                        members = (world_rules[-2:] if rng.random() < 0.6 else []) + [(run_impl.rule, tree, weight, rule_text(atext, wtext))]
+                        act_name = ACTIVATIONS[block_i % len(ACTIVATIONS)]
+                        block_i += 1
+                        dist["block_checks"][act_name] = dist["block_checks"].get(act_name, 0) + len(members)
+                        block_rules += len(members)
+                        for what, det in block_check(engine, members, tn, sn, act_name, real_hedges):
+                            verdict.add_violation(f"block:{act_name}:degree", what,
+                                                  {"block": {"world": world, "conjunction": tn, "disjunction": sn, "activation": act_name,
+                                                             "rules": [[m[3], m[1], m[2]] for m in members]}, **det})
+                            oracle_violations += 1
+                        world_rules.append((run_impl.rule, tree, weight, rule_text(atext, wtext)))
                     elif res[2][0] == "ok":  # evaluated although an operator is missing: fine iff the tree does not need it
                         vlib.RECORDER.reset()
                         with np.errstate(all="ignore"):
@@ -634,6 +736,7 @@ def run(ctx, build, verdict, ev):
                            f"replay data: {m['replay']}")
     c = ev["coverage"]
     c["evaluations"] = len(index) + len(sy_index)
+    c["rule_block_activations"] = block_rules
     c["shunting_yard_texts"] = {"count": len(sy_index), "outcomes": sy_outcomes}
     c["distinct_nontrivial"] = len(nontrivial)
     c["rule"] = ("random engines (1-3 variables, inputs and outputs with a pre-filled fuzzy output, Triangle/Trapezoid/Rectangle/Ramp terms, "
@@ -688,18 +791,25 @@ def collect_hedge_args(engine, atext, conj, disj):
 
 
 def replay(ctx, data):
+    import fuzzylite as fl
+
+    hs = {h: fl.settings.factory_manager.hedge.construct(h) for h in HEDGES}
     for v in data.get("violations", []):
         print(v["what"])
         r = v["replay"]
-        if "world" in r:
+        if "block" in r:
+            b = r["block"]
+            engine = build_engine(b["world"])
+            members = [(fl.Rule.create(text, engine), tree, weight, text) for text, tree, weight in b["rules"]]
+            now = block_check(engine, members, b["conjunction"], b["disjunction"], b["activation"], hs)
+            print("  now:", [w for w, _ in now] or "agrees with the grammar semantics")
+        elif "world" in r:
             engine = build_engine(r["world"])
             conj, disj = mk_norm(r["conjunction"], True), mk_norm(r["disjunction"], False)
-            res = run_impl(engine, r["antecedent"], conj, disj, r["weight"])
-            print("  now:", res)
+            wtext = r.get("weight_text", repr(r["weight"]))
+            res = run_impl(engine, r["antecedent"], conj, disj, wtext)
+            print("  now:", res, " rule.weight =", run_impl.weight_read, " (text says", r["weight"], ")")
             if r.get("tree") and conj is not None and disj is not None:
-                import fuzzylite as fl
-
-                hs = {h: fl.settings.factory_manager.hedge.construct(h) for h in HEDGES}
                 with np.errstate(all="ignore"):
                     print("  grammar semantics:", r["weight"] * float(spec_value(r["tree"], engine, conj, disj, hs)), " postfix:", " ".join(postfix_tokens(r["tree"])))
     for b in data.get("broken", []):
